@@ -204,6 +204,7 @@ CHECKS = {
         "parts": [
             {"part": "sched", "test": "TestSched", "quick": {"checks": 4000, "shards": 8}, "thorough": {"checks": 300000, "shards": 16, "timeout": 3000}},
             {"part": "updatesnapshots", "test": "TestUpdateSnapshots", "quick": {"checks": 3000, "shards": 8}, "thorough": {"checks": 200000, "shards": 16, "timeout": 3000}},
+            {"part": "e2e", "test": "TestE2E", "quick": {"checks": 240, "shards": 16, "shrinktime": "90s", "timeout": 900}, "thorough": {"checks": 5000, "shards": 16, "shrinktime": "180s", "timeout": 6000}, "owned_schedule": False},
         ],
     },
     "C09": {
